@@ -524,6 +524,16 @@ func (p *Program) addressTaken(fn *ssa.Function) bool {
 						if ci, isCall := in.(ssa.CallInstruction); isCall && i == 0 && ci.Common().Value == ssa.Value(g) && !ci.Common().IsInvoke() {
 							continue
 						}
+						if g.Synthetic != "" && !strings.HasPrefix(g.Synthetic, "instance of") {
+							// method value `x.m` / method expression `T.m`: go/ssa wraps the method in a
+							// synthetic bound-method closure or thunk that carries the method's object
+							if obj, isFn := g.Object().(*types.Func); isFn && obj != nil {
+								if decl := p.SSA.FuncValue(obj); decl != nil {
+									p.addrTaken[decl] = true
+								}
+							}
+							continue
+						}
 						if mc, isMC := in.(*ssa.MakeClosure); isMC && mc.Fn == ssa.Value(g) {
 							continue
 						}
